@@ -126,6 +126,9 @@ func (obj *Instance) Init(scope *slip.Scope, args slip.List, depth int) {
 			slip.ErrorPanic(scope, depth, "initialization keyword 'self' is not initable.")
 		}
 		i++
+		if len(args) <= i {
+			slip.ErrorPanic(scope, depth, "initialization keyword %s is missing a value.", sym)
+		}
 		val := args[i]
 		if len(cf.initable) == 0 || cf.isInitable(key) {
 			vkey := key[1:]
